@@ -1,0 +1,83 @@
+//! Verification seam for the one piece of shared state in this crate: the
+//! `Mutex` around the readiness tables which child wakers and the poller share.
+//!
+//! Compiled only with `--cfg futures_concurrency_verif`; without that flag this
+//! file is not part of the crate and `std::sync::Mutex` is used directly.
+//!
+//! Two flavours:
+//! - default: a transparent wrapper over `std::sync::Mutex` which reports every
+//!   lock boundary to an optional thread-local hook (so a deterministic
+//!   simulator can run "another thread" at exactly that point) and which reports
+//!   a relock by the owning thread instead of hanging forever.
+//! - `--cfg 'futures_concurrency_verif="shuttle"'`: `shuttle::sync::Mutex`, so a
+//!   controlled scheduler owns the interleaving of real threads.
+
+#[cfg(not(futures_concurrency_verif = "shuttle"))]
+mod imp {
+    use core::cell::Cell;
+    use core::fmt;
+    use std::sync::{LockResult, TryLockError};
+
+    pub use std::sync::MutexGuard;
+
+    /// A point at which the simulator is told about synchronisation.
+    #[derive(Debug, Clone, Copy, PartialEq, Eq)]
+    pub enum SyncPoint {
+        /// The current thread is about to acquire a readiness lock it does not hold.
+        BeforeLock,
+        /// The lock is already held; with a single thread this is a self-deadlock.
+        WouldBlock,
+    }
+
+    std::thread_local! {
+        static HOOK: Cell<Option<fn(SyncPoint)>> = const { Cell::new(None) };
+    }
+
+    /// Install (or clear) the hook of the current thread.
+    pub fn set_sync_hook(hook: Option<fn(SyncPoint)>) {
+        HOOK.with(|h| h.set(hook));
+    }
+
+    #[inline]
+    fn call(point: SyncPoint) {
+        if let Some(hook) = HOOK.with(|h| h.get()) {
+            hook(point);
+        }
+    }
+
+    /// `std::sync::Mutex` with lock-boundary reporting.
+    pub struct Mutex<T>(std::sync::Mutex<T>);
+
+    impl<T> Mutex<T> {
+        /// See `std::sync::Mutex::new`.
+        pub fn new(t: T) -> Self {
+            Self(std::sync::Mutex::new(t))
+        }
+
+        /// See `std::sync::Mutex::lock`.
+        pub fn lock(&self) -> LockResult<MutexGuard<'_, T>> {
+            call(SyncPoint::BeforeLock);
+            match self.0.try_lock() {
+                Ok(guard) => Ok(guard),
+                Err(TryLockError::Poisoned(p)) => Err(p),
+                Err(TryLockError::WouldBlock) => {
+                    call(SyncPoint::WouldBlock);
+                    self.0.lock()
+                }
+            }
+        }
+    }
+
+    impl<T: fmt::Debug> fmt::Debug for Mutex<T> {
+        fn fmt(&self, f: &mut fmt::Formatter<'_>) -> fmt::Result {
+            self.0.fmt(f)
+        }
+    }
+}
+
+#[cfg(futures_concurrency_verif = "shuttle")]
+mod imp {
+    pub use shuttle::sync::{Mutex, MutexGuard};
+}
+
+pub use imp::*;
